@@ -10,7 +10,7 @@ def sh(cmd, **kw):
 def one(src):
     src = src.rstrip('/')
     k = os.path.basename(src); pid = os.path.basename(os.path.dirname(src))
-    wave = 'w4-' if 'seed_out4' in src else 'w3-' if 'seed_out3' in src else 'w2-' if 'seed_out2' in src else ''
+    wave = 'w5-' if 'seed_out5' in src else 'w4-' if 'seed_out4' in src else 'w3-' if 'seed_out3' in src else 'w2-' if 'seed_out2' in src else ''
     if len(pid) > 3:            # wave 4: agent directories C01a, C01b, ... -> seeds C01-w4-a1, C01-w4-b1
         wave += pid[3:]
         pid = pid[:3]
